@@ -1,3 +1,32 @@
 import Mdsort.Proofs.World
+
+/-!
+# C01 - no message is lost or duplicated when an I/O operation fails
+
+The file-system code of mdsort is transcribed as programs over libc calls
+(Model/Scripts.lean, Model/Main.lean); `runPlan` executes them on an abstract file system
+under an arbitrary fault plan (any number of faults, any errno, short transfers).  The real
+binary is tied to these programs call by call on every run of the check (`Model.conform`).
+-/
+
 namespace Mdsort.Props
+open Mdsort Mdsort.Model
+
+/-- Loss-freedom under EVERY fault plan (any number of faults): whatever fails while an action
+list (move on one device or across devices, flag, flags, label, add-header, exec, in any order
+and number) is executed, after every single call some directory entry is bound to a complete
+version of the message - the bytes it had, or the completely written new version. -/
+theorem C01_no_loss (env : PEnv) (ml : MatchList) (st : ExecSt) (w : World) (orig : Bytes) (plan : Plan)
+    (hs : Proofs.Start w st orig) (hd : Proofs.NoDiscard ml) :
+    ∀ w' ∈ (runPlan plan (matchesExec env ml st) w 0 []).2.2, Proofs.Intact w' (Proofs.stages st.ms orig) :=
+  Proofs.exec_always_intact env ml st w orig plan hs hd
+
+/-- The exit status is a function of the error and reject flags only (so a failure that sets the
+error flag is always reported). -/
+theorem C01_exit_reports_error (env : PEnv) (orc : EvalOracles) (ok : Bool) (conf : List ConfBlock) (files : Files) (input : Bytes)
+    (w : World) (plan : Plan) :
+    let r := (runPlan plan (mainP env orc ok conf files input) w 0 []).1
+    r.1 = exitStatus env r.2 :=
+  Proofs.exit_status_table env orc ok conf files input w plan
+
 end Mdsort.Props
